@@ -322,8 +322,8 @@ func isNilCheck(a string) bool {
 func findParserSelector(w *World) *ssa.Function {
 	for _, fn := range w.funcsInPkg("cmd/thermal-recorder") {
 		sig := fn.Signature
-		if sig.Recv() != nil || sig.Results().Len() != 1 || sig.Params().Len() != 2 {
-			continue
+		if sig.Recv() != nil || sig.Results().Len() != 1 || sig.Params().Len() < 1 || sig.Params().Len() > 2 {
+			continue // (brand, model string) or a camera description whose Brand()/Model() it asks
 		}
 		rs, ok := sig.Results().At(0).Type().Underlying().(*types.Signature)
 		if !ok || rs.Params().Len() != 3 || rs.Results().Len() != 1 {
